@@ -664,7 +664,8 @@ func (d *Driver) RunScript(sc tf.Script, replay bool) {
 	for t := range s.tags {
 		d.St.Tagged[t]++
 	}
-	if s.flags["landedSig"] && (s.flags["dupDelivery"] || s.flags["failure"] || s.flags["crash"] || s.flags["retry"] || s.flags["refused"]) {
+	// (input-side rule: it must not depend on the daemon behaving well)
+	if s.flags["assigned"] && (s.flags["dupDelivery"] || s.flags["failure"] || s.flags["crash"] || s.flags["retry"] || s.flags["reset"]) {
 		h := sc.Hash()
 		if !d.St.Distinct[h] {
 			d.St.Distinct[h] = true
